@@ -65,6 +65,10 @@ def shared_object_task(W, payload):
         params = [[k, v] for k, v in prog["params"].items()]
         ra = IA.apply({"op": "run", "params": params, "solver": "euler"}); r0 = I0.apply({"op": "run", "params": params, "solver": "euler"})
         out["evals"] += 2
+        if r0["ok"] and not ra["ok"]:
+            fail(out, "a model with an unadjusted stratification (an object shared with another model built before the run) cannot be run although its unstratified version can",
+                 "c03", payload, err=str(ra.get("err"))[:300], program_A=opsA, program_B=opsB, params=prog["params"])
+            return out
         if not (ra["ok"] and r0["ok"]):
             bump(out, "run_failed"); return out
         a = np.array(ra["outputs"]); o = np.array(r0["outputs"])
